@@ -3,6 +3,7 @@
   Model: FalconModel/CfgEdit.lean (mirror of il/control_flow_graph.rs, il/block.rs, graph/mod.rs container part).
 -/
 import FalconProofs.C15.Copy
+import FalconProofs.C15.MergeRound
 
 namespace Falcon.C15
 open Falcon Falcon.CfgEdit
@@ -77,6 +78,32 @@ theorem block_append_indices (b o : Block) (hb : BlockWF b) :
   | cons i is ih =>
     rw [appendInstrs, ih _ (blockWF_pushRaw hb i)]
     simp
+
+/-- **merge_step_preserves_paths** — the single merge step: when `m`'s only out-edge is an unconditional edge to
+    `s ≠ m`, `s`'s only in-edge is that edge and `s` is not the entry, merging `s` into `m` (instructions appended
+    with fresh indices, out-edges of `s` re-headed to `m`, `s` removed) does not change the set of operation/guard
+    sequences that can be executed from the entry.  The proof is the walk correspondence of
+    `walk_merged_to_orig` / `walk_orig_to_merged` (a walk through `m·s` ↔ a walk through `m`, the edge, `s`). -/
+theorem merge_step_preserves_paths {c c' : Cfg} {m s : Nat} (hw : WF c) (hv : ValidPair c m s)
+    (h : mergeStep c m s = ⟨c', .ok ()⟩) : ∀ w, Lang c' w ↔ Lang c w := by
+  obtain ⟨mb, sb, hV⟩ := mergeStep_view hv.ne h
+  exact mergeStep_lang hw hv hV
+
+/-- **merge_preserves_paths** — `ControlFlowGraph::merge` (all rounds: the pairs of a round are selected in the
+    iteration order of the code, are valid and pairwise disjoint, and stay valid while the round is applied) does
+    not change the language of operation/guard sequences from the entry, on every well-formed graph on which it
+    returns `Ok`.  (That it returns `Ok` on every well-formed graph is `merge_ok` below.) -/
+theorem merge_preserves_paths {c : Cfg} (hw : WF c) (h : (merge c).res = .ok ()) :
+    ∀ w, Lang (merge c).cfg w ↔ Lang c w := by
+  have : merge c = ⟨(merge c).cfg, .ok ()⟩ := by
+    cases hm : merge c with
+    | mk c' r => rw [hm] at h; simp only at h; subst h; rfl
+  exact mergeLoop_lang _ hw this
+
+/-- the pairs `merge` selects in a round satisfy the hypothesis of `merge_step_preserves_paths` -/
+theorem merge_selects_valid_pairs {c : Cfg} {ms : List (Nat × Nat)} (h : collect c c.blocks [] = .ok ms) :
+    (∀ p ∈ ms, ValidPair c p.1 p.2) ∧ DisjointPairs ms :=
+  ⟨fun p hp => ((collect_valid _ _ _ h).1 p hp).1, (collect_valid _ _ _ h).2⟩
 
 /-- non-vacuity: a history with a merge that merges, an append and an insert -/
 example : WF (runAll [.newBlock 0, .newBlock 0, .uedge 0 0 1, .entry 0 0, .exit 0 1, .op 0 1 .nop,
